@@ -498,9 +498,21 @@ func TestC13PairingConcurrent(t *testing.T) {
 		tasks = append(tasks, task{"G1.Hash", func() []byte { var h bls.G1; h.Hash(msg, dst); return h.Bytes() }, w1})
 		tasks = append(tasks, task{"G2.Hash", func() []byte { var h bls.G2; h.Hash(msg, dst); return h.Bytes() }, w2})
 	}
-	for _, tk := range tasks {
-		if fmt.Sprintf("%x", tk.run()) != fmt.Sprintf("%x", tk.want) {
-			t.Skipf("sequential value already differs for %s (reported by the pairing sub-checks)", tk.name)
+	for i, tk := range tasks {
+		if got := tk.run(); fmt.Sprintf("%x", got) != fmt.Sprintf("%x", tk.want) {
+			// a sequential failure is not a concurrency defect, but it is a wrong pairing value / a hash that is not a
+			// function of its input all the same (the plan's arguments are fixed functions of the seed, which the drawn
+			// cases of the pairing sub-checks need not hit): reported, the concurrent part is not run
+			class := "sequential-pass-of-concurrent-plan"
+			var one bls.Gt
+			one.SetIdentity()
+			if ob, _ := one.MarshalBinary(); (tk.name == "ProdPair" || tk.name == "ProdPairFrac") && fmt.Sprintf("%x", got) == fmt.Sprintf("%x", ob) {
+				class = "identity-in-G1-list" // the failure class of the pairing-product sub-check: the lists of these tasks contain the G1 identity
+			}
+			vlib.ReportDirect(t, "C13/bls12381."+tk.name+"/"+class,
+				fmt.Sprintf("task #%d (%s) of the concurrency plan (arguments derived from seed %d), run alone before any goroutine starts: got %x want %x", i, tk.name, vlib.Seed, got, tk.want),
+				map[string]interface{}{"task": i, "op": tk.name, "seed": vlib.Seed})
+			return
 		}
 	}
 	const G = 8
